@@ -1,27 +1,23 @@
 package main
 
-// If-conversion: predicated evaluation of both arms of a symbolic branch when they
-// re-join (or both return) without needing any solver decision.  Stores performed inside
-// the arms are guarded (ite(guard, new, old)); anything that would fork, query the solver,
-// touch a map or end the path aborts the attempt and the branch is forked instead.
+// If-conversion: predicated evaluation of the acyclic region between a symbolic branch and
+// its immediate post-dominator (or the function exit when every path returns).  Blocks are
+// executed in topological order under their path guard; stores are guarded
+// (ite(guard, new, old)); phis become ite chains over the incoming edge guards.  Anything
+// that would fork, query the solver, touch an older map or end the path aborts the attempt
+// and the branch is forked instead.
 
 import (
 	"go/types"
+	"sync"
 
 	"golang.org/x/tools/go/ssa"
 )
 
 type mergeAbort struct{}
 
-type armRes struct {
-	join   *ssa.BasicBlock
-	vals   []Value
-	npreds int
-	ret    Value
-	isRet  bool
-}
-
-const mergeStepBudget = 400
+const mergeStepBudget = 600
+const maxRegionBlocks = 24
 
 func abortMerge() { panic(mergeAbort{}) }
 
@@ -45,8 +41,158 @@ func isLoopHead(b *ssa.BasicBlock) bool {
 	return false
 }
 
+type regionInfo struct {
+	ok    bool
+	join  *ssa.BasicBlock // nil: all paths return
+	order []*ssa.BasicBlock
+}
+
+var regionCache sync.Map // *ssa.If -> *regionInfo
+var ipdomCache sync.Map  // *ssa.Function -> []int (index of immediate post-dominator, -1 = exit)
+
+// ipdoms computes immediate post-dominators of all blocks of fn (virtual exit = -1).
+func ipdoms(fn *ssa.Function) []int {
+	if v, ok := ipdomCache.Load(fn); ok {
+		return v.([]int)
+	}
+	n := len(fn.Blocks)
+	words := (n + 1 + 63) / 64
+	exit := n
+	full := make([]uint64, words)
+	for i := 0; i <= n; i++ {
+		full[i/64] |= 1 << uint(i%64)
+	}
+	pd := make([][]uint64, n+1)
+	for i := 0; i <= n; i++ {
+		pd[i] = append([]uint64{}, full...)
+	}
+	pd[exit] = make([]uint64, words)
+	pd[exit][exit/64] |= 1 << uint(exit%64)
+	changed := true
+	for changed {
+		changed = false
+		for i := n - 1; i >= 0; i-- {
+			b := fn.Blocks[i]
+			acc := append([]uint64{}, full...)
+			if len(b.Succs) == 0 {
+				for w := range acc {
+					acc[w] &= pd[exit][w]
+				}
+			}
+			for _, s := range b.Succs {
+				for w := range acc {
+					acc[w] &= pd[s.Index][w]
+				}
+			}
+			acc[i/64] |= 1 << uint(i%64)
+			for w := range acc {
+				if acc[w] != pd[i][w] {
+					changed = true
+				}
+			}
+			pd[i] = acc
+		}
+	}
+	count := func(s []uint64) int {
+		c := 0
+		for _, w := range s {
+			for ; w != 0; w &= w - 1 {
+				c++
+			}
+		}
+		return c
+	}
+	res := make([]int, n)
+	for i := 0; i < n; i++ {
+		res[i] = -2
+		ci := count(pd[i])
+		for j := 0; j <= n; j++ {
+			if j == i || pd[i][j/64]&(1<<uint(j%64)) == 0 {
+				continue
+			}
+			if count(pd[j]) == ci-1 {
+				if j == exit {
+					res[i] = -1
+				} else {
+					res[i] = j
+				}
+				break
+			}
+		}
+	}
+	ipdomCache.Store(fn, res)
+	return res
+}
+
+func regionFor(in *ssa.If) *regionInfo {
+	if v, ok := regionCache.Load(in); ok {
+		return v.(*regionInfo)
+	}
+	b := in.Block()
+	fn := b.Parent()
+	ri := &regionInfo{}
+	defer regionCache.Store(in, ri)
+	if isLoopHead(b) {
+		return ri
+	}
+	ip := ipdoms(fn)[b.Index]
+	if ip == -2 {
+		return ri
+	}
+	var join *ssa.BasicBlock
+	if ip >= 0 {
+		join = fn.Blocks[ip]
+	}
+	// collect region blocks in reverse post-order
+	seen := map[*ssa.BasicBlock]bool{}
+	onStack := map[*ssa.BasicBlock]bool{}
+	var post []*ssa.BasicBlock
+	bad := false
+	var dfs func(x *ssa.BasicBlock)
+	dfs = func(x *ssa.BasicBlock) {
+		if bad || x == join || seen[x] {
+			if onStack[x] {
+				bad = true
+			}
+			return
+		}
+		if x == b || isLoopHead(x) || len(seen) >= maxRegionBlocks {
+			bad = true
+			return
+		}
+		seen[x] = true
+		onStack[x] = true
+		for _, s := range x.Succs {
+			dfs(s)
+		}
+		onStack[x] = false
+		post = append(post, x)
+	}
+	for _, s := range b.Succs {
+		dfs(s)
+	}
+	if bad {
+		return ri
+	}
+	for i := len(post) - 1; i >= 0; i-- {
+		ri.order = append(ri.order, post[i])
+	}
+	ri.join = join
+	ri.ok = true
+	return ri
+}
+
+type edgeIn struct {
+	pred  *ssa.BasicBlock
+	guard *Term
+}
+
 func (ex *Exec) tryMerge(fr *Frame, block *ssa.BasicBlock, in *ssa.If, c *Term) (join *ssa.BasicBlock, ret Value, isRet bool, ok bool) {
-	if ex.noMerge || isLoopHead(block) {
+	if ex.noMerge {
+		return nil, nil, false, false
+	}
+	ri := regionFor(in)
+	if !ri.ok {
 		return nil, nil, false, false
 	}
 	mark := len(ex.trail)
@@ -73,7 +219,6 @@ func (ex *Exec) tryMerge(fr *Frame, block *ssa.BasicBlock, in *ssa.If, c *Term) 
 			if !isAbort && !isEnd {
 				panic(r)
 			}
-			// roll back
 			for i := len(ex.trail) - 1; i >= mark; i-- {
 				u := ex.trail[i]
 				if u.isM {
@@ -93,41 +238,120 @@ func (ex *Exec) tryMerge(fr *Frame, block *ssa.BasicBlock, in *ssa.If, c *Term) 
 			join, ret, isRet, ok = nil, nil, false, false
 		}
 	}()
-	gT, gF := c, ex.st.Not(c)
-	if savedGuard != nil {
-		gT = ex.st.And(savedGuard, c)
-		gF = ex.st.And(savedGuard, gF)
+	st := ex.st
+	incoming := map[*ssa.BasicBlock][]edgeIn{}
+	addEdge := func(from, to *ssa.BasicBlock, g *Term) {
+		if g.Op == OConst && g.C == 0 {
+			return
+		}
+		incoming[to] = append(incoming[to], edgeIn{from, g})
 	}
-	rT := ex.evalArm(fr, block.Succs[0], block, gT)
-	rF := ex.evalArm(fr, block.Succs[1], block, gF)
+	addEdge(block, block.Succs[0], c)
+	addEdge(block, block.Succs[1], st.Not(c))
+	type retCase struct {
+		g *Term
+		v Value
+	}
+	var rets []retCase
+
+	// phiValues computes the phi values of x from the region edges
+	phiValues := func(x *ssa.BasicBlock, ins []edgeIn) []Value {
+		np := numPhis(x)
+		vals := make([]Value, np)
+		for k := 0; k < np; k++ {
+			phi := x.Instrs[k].(*ssa.Phi)
+			var acc Value
+			for i := len(ins) - 1; i >= 0; i-- {
+				v := ex.get(fr, phi.Edges[predIndex(x, ins[i].pred)])
+				if acc == nil {
+					acc = v
+				} else {
+					acc = ex.mergeValue(ins[i].guard, v, acc)
+				}
+			}
+			vals[k] = acc
+		}
+		return vals
+	}
+
+	for _, x := range ri.order {
+		ins := incoming[x]
+		if len(ins) == 0 {
+			continue
+		}
+		g := ins[0].guard
+		for _, e := range ins[1:] {
+			g = st.Or(g, e.guard)
+		}
+		vals := phiValues(x, ins)
+		np := len(vals)
+		for k := 0; k < np; k++ {
+			fr.env[x.Instrs[k].(*ssa.Phi)] = vals[k]
+		}
+		if savedGuard != nil {
+			ex.guard = st.And(savedGuard, g)
+		} else {
+			ex.guard = g
+		}
+		fr.block = x
+		for i := np; i < len(x.Instrs); i++ {
+			ex.specBudget--
+			if ex.specBudget < 0 {
+				abortMerge()
+			}
+			switch t := x.Instrs[i].(type) {
+			case *ssa.If:
+				c2 := ex.term(fr, t.Cond)
+				addEdge(x, x.Succs[0], st.And(g, c2))
+				addEdge(x, x.Succs[1], st.And(g, st.Not(c2)))
+			case *ssa.Jump:
+				addEdge(x, x.Succs[0], g)
+			case *ssa.Return:
+				var v Value
+				switch len(t.Results) {
+				case 0:
+				case 1:
+					v = ex.get(fr, t.Results[0])
+				default:
+					tv := make(TupleV, len(t.Results))
+					for k, r := range t.Results {
+						tv[k] = ex.get(fr, r)
+					}
+					v = tv
+				}
+				rets = append(rets, retCase{g, v})
+			case *ssa.Panic, *ssa.RunDefers, *ssa.Defer, *ssa.Go, *ssa.MapUpdate, *ssa.Range, *ssa.Next, *ssa.Select, *ssa.Send:
+				abortMerge()
+			default:
+				ex.exec(fr, x.Instrs[i])
+			}
+		}
+	}
 	ex.guard = savedGuard
-	m := ex.combine(c, rT, rF)
-	if m.isRet {
-		return nil, m.ret, true, true
+	if ri.join == nil {
+		if len(rets) == 0 {
+			abortMerge()
+		}
+		acc := rets[len(rets)-1].v
+		for i := len(rets) - 2; i >= 0; i-- {
+			acc = ex.mergeValue(rets[i].g, rets[i].v, acc)
+		}
+		fr.block = block
+		return nil, acc, true, true
 	}
-	np := numPhis(m.join)
-	for k := 0; k < np; k++ {
-		fr.env[m.join.Instrs[k].(*ssa.Phi)] = m.vals[k]
+	if len(rets) > 0 {
+		abortMerge()
+	}
+	ins := incoming[ri.join]
+	if len(ins) == 0 {
+		abortMerge()
+	}
+	vals := phiValues(ri.join, ins)
+	for k := range vals {
+		fr.env[ri.join.Instrs[k].(*ssa.Phi)] = vals[k]
 	}
 	fr.block = block
-	return m.join, nil, false, true
-}
-
-func (ex *Exec) combine(c *Term, a, b armRes) armRes {
-	if a.isRet != b.isRet {
-		abortMerge()
-	}
-	if a.isRet {
-		return armRes{isRet: true, ret: ex.mergeValue(c, a.ret, b.ret)}
-	}
-	if a.join != b.join {
-		abortMerge()
-	}
-	vals := make([]Value, len(a.vals))
-	for i := range vals {
-		vals[i] = ex.mergeValue(c, a.vals[i], b.vals[i])
-	}
-	return armRes{join: a.join, vals: vals, npreds: a.npreds + b.npreds}
+	return ri.join, nil, false, true
 }
 
 func (ex *Exec) mergeValue(c *Term, a, b Value) Value {
@@ -210,99 +434,4 @@ func (ex *Exec) mergeValue(c *Term, a, b Value) Value {
 	}
 	abortMerge()
 	return nil
-}
-
-// evalArm executes the chain of blocks starting at b (entered from pred) under guard g.
-func (ex *Exec) evalArm(fr *Frame, b, pred *ssa.BasicBlock, g *Term) armRes {
-	cur, from := b, pred
-	skipPhis := false
-	for {
-		np := numPhis(cur)
-		if len(cur.Preds) > 1 && !skipPhis {
-			// a join: report the phi values along this edge
-			pi := predIndex(cur, from)
-			vals := make([]Value, np)
-			for k := 0; k < np; k++ {
-				vals[k] = ex.get(fr, cur.Instrs[k].(*ssa.Phi).Edges[pi])
-			}
-			return armRes{join: cur, vals: vals, npreds: 1}
-		}
-		if !skipPhis && np > 0 {
-			vals := make([]Value, np)
-			for k := 0; k < np; k++ {
-				vals[k] = ex.get(fr, cur.Instrs[k].(*ssa.Phi).Edges[0])
-			}
-			for k := 0; k < np; k++ {
-				fr.env[cur.Instrs[k].(*ssa.Phi)] = vals[k]
-			}
-		}
-		skipPhis = false
-		if isLoopHead(cur) {
-			abortMerge()
-		}
-		ex.guard = g
-		fr.block = cur
-		var next *ssa.BasicBlock
-		for i := np; i < len(cur.Instrs); i++ {
-			ex.specBudget--
-			if ex.specBudget < 0 {
-				abortMerge()
-			}
-			switch in := cur.Instrs[i].(type) {
-			case *ssa.If:
-				c2 := ex.term(fr, in.Cond)
-				if c2.Op == OConst {
-					if c2.C != 0 {
-						next = cur.Succs[0]
-					} else {
-						next = cur.Succs[1]
-					}
-					break
-				}
-				rA := ex.evalArm(fr, cur.Succs[0], cur, ex.st.And(g, c2))
-				rB := ex.evalArm(fr, cur.Succs[1], cur, ex.st.And(g, ex.st.Not(c2)))
-				ex.guard = g
-				m := ex.combine(c2, rA, rB)
-				if m.isRet {
-					return m
-				}
-				if m.npreds < len(m.join.Preds) {
-					return m
-				}
-				// fully covered join: continue inside it
-				n2 := numPhis(m.join)
-				for k := 0; k < n2; k++ {
-					fr.env[m.join.Instrs[k].(*ssa.Phi)] = m.vals[k]
-				}
-				next = m.join
-				skipPhis = true
-			case *ssa.Jump:
-				next = cur.Succs[0]
-			case *ssa.Return:
-				switch len(in.Results) {
-				case 0:
-					return armRes{isRet: true}
-				case 1:
-					return armRes{isRet: true, ret: ex.get(fr, in.Results[0])}
-				}
-				tv := make(TupleV, len(in.Results))
-				for k, r := range in.Results {
-					tv[k] = ex.get(fr, r)
-				}
-				return armRes{isRet: true, ret: tv}
-			case *ssa.Panic, *ssa.RunDefers, *ssa.Defer, *ssa.Go, *ssa.MapUpdate, *ssa.Range, *ssa.Next, *ssa.Select, *ssa.Send:
-				abortMerge()
-			default:
-				ex.exec(fr, cur.Instrs[i])
-			}
-			if next != nil {
-				break
-			}
-		}
-		if next == nil {
-			abortMerge()
-		}
-		from = cur
-		cur = next
-	}
 }
